@@ -8,16 +8,13 @@ import ApiFu.C08.Lemmas
 namespace ApiFu.C08
 
 theorem mem_execSubsOf (g : Gen) (log : List Out) : g ∈ execSubsOf log ↔ Out.exec g .subscription ∈ log := by
-  induction log with
-  | nil => simp [execSubsOf]
-  | cons o rest ih =>
-    simp only [execSubsOf, List.filterMap_cons] at ih ⊢
-    cases o <;> simp_all
-    rename_i g' k
-    cases k <;> simp_all
-    constructor
-    · rintro (h | h); exact Or.inl h.symm; exact Or.inr h
-    · rintro (h | h); exact Or.inl h.symm; exact Or.inr h
+  unfold execSubsOf
+  rw [List.mem_filterMap]
+  constructor
+  · rintro ⟨o, ho, he⟩
+    match o, he with
+    | .exec g' .subscription, he => simp at he; subst he; exact ho
+  · intro h; exact ⟨_, h, rfl⟩
 
 /-- **no_fault** — the second send on the one-slot `closeMessage` channel (which would block its
     goroutine forever) is unreachable: `beginClosing`'s once-guard is the only sender. -/
@@ -39,7 +36,7 @@ theorem stop_at_most_once (cfg : Cfg) (evs : List Ev) (g : Gen) :
     let s := run cfg init evs
     stopCount g s.log ≤ 1 ∧ (stopCount g s.log = 1 → Out.exec g .subscription ∈ s.log) := by
   intro s
-  obtain ⟨_, _, _, _, _, _, b6, _, b8, _, b10, _⟩ := (inv12_reachable cfg evs).2
+  obtain ⟨_, _, _, _, _, b6, _, b8, _, b10, _⟩ := (inv12_reachable cfg evs).2
   by_cases hg : g ∈ (absBook s).tasks.map (·.1)
   · obtain ⟨t, ht, rfl⟩ := List.mem_map.mp hg
     have := b6 t ht
@@ -76,7 +73,9 @@ theorem close_stops_each_once (cfg : Cfg) (evs : List Ev) :
     obtain ⟨t, ht, rfl⟩ := List.mem_map.mp this
     have h6 := b6 t ht
     rw [hs'] at h6
-    rw [stopCount_eq]; simpa using h6
+    rw [stopCount_eq]
+    simp only [List.map_nil, List.not_mem_nil, ite_false] at h6
+    exact h6
   · intro g hg
     rw [stopCount_eq]
     apply b8
